@@ -873,7 +873,9 @@ class ContentElement(TTMLElement):
 
             if self.implicit_end is not None and child_element.desired_end is not None:
 
-              self.implicit_end = max(self.implicit_end, child_element.desired_end)
+              # the end of the child is relative to the begin of this element, whereas the implicit end
+              # of this element is relative to the begin of its parent
+              self.implicit_end = max(self.implicit_end, self.desired_begin + child_element.desired_end)
 
             else:
 
